@@ -50,12 +50,17 @@ CHECKS['C04'] = dict(
     note='Trusted: rustc MIR dump, vf.engine, vf.ideal exact mode, props/wire.py layouts, the FramedRead loop as documented (replays use the real one), z3. Shadowsocks 2022 salt+fixed header boundary exempt as the property says. More than 3 segments and the transports below AsyncRead are outside.',
     technique='MIR symbolic execution to z3 (genuine stream, symbolic cut points, FramedRead loop model)', design='DESIGN.md section 2, C04')
 
+CHECKS['C06'] = dict(
+    text='Server-side decoders on an arbitrary input of arbitrary length, with the ideal-AEAD ghost log holding only what parties without the required credential can have sealed (another pre-shared key differing in at least one bit; the server key alone where a registered user key is also required; an unregistered key) next to one genuine request of registered user A: a connect/relay item reaches the relay only if every opened ciphertext was sealed under the configured credential; with a two-user table (symbolic keys and identity hashes) traffic authenticated under A is attributed to A (session user = A, so replies use A\'s key) and a lookup miss never falls back to the server key. Trojan: an item is yielded - and the Header state left - only if the 56 presented characters decode (u8::from_str_radix semantics) to the stored SHA-224 digest, for every input.',
+    note='Trusted: rustc MIR dump, vf.engine, vf.ideal, AES-ECB/CRC/FNV as arbitrary functions, z3. VMess user-id matching (auth id + sealed header under a registered key) is covered by the C04 server job on valid input and C07 on arbitrary input, not yet by an adversarial log here; Shadowsocks UDP identity headers and the process-wide UDP cipher cache are outside. Whether the server dials is decided by the first item (async relay_to is outside).',
+    technique='MIR symbolic execution to z3 (ideal-AEAD ghost log of non-credentialed ciphertexts; accept implies credential)', design='DESIGN.md section 2, C06')
+
 NOT_APPLICABLE = {
  'C08': 'property is about long-lived async accept/select! loops under injected socket/TLS/DNS faults; no synchronous core that symbolic execution of MIR or Kani can reach (tokio runtime, epoll, FFI)',
  'C09': 'quantifies over thread interleavings of shared state; Kani has no thread model and Engine M is sequential',
  'C15': 'EOF propagation through Stream::forward/try_join!, QUIC finish/stopped and descriptor release are runtime/OS behaviour with no synchronous core to encode',
 }
-PENDING = ['C01', 'C02', 'C03', 'C06', 'C07', 'C10', 'C12', 'C13', 'C14', 'C16']
+PENDING = ['C01', 'C02', 'C03', 'C07', 'C10', 'C12', 'C13', 'C14', 'C16']
 
 m = {
  'version': 1,
